@@ -132,7 +132,7 @@ extern "C" void h_c07_closest(unsigned long n, unsigned long same_bucket) {
     PeerId ids[4]; long long exp[4];
     for (unsigned i = 0; i < n; ++i) {
         ids[i] = self_id();
-        ids[i][0] ^= static_cast<std::uint8_t>(same_bucket ? 0x80 : (0x80 >> i));
+        ids[i][0] ^= static_cast<std::uint8_t>(same_bucket == 1 ? 0x80 : same_bucket == 2 ? (0x40 >> i) : (0x80 >> i));   // 2: buckets below the top one (a target in the top bucket has them all in one distance band)
         ids[i][30] = nondet_u8("id30"); ids[i][31] = nondet_u8("id31");
         for (unsigned j = 0; j < i; ++j) verif_assume(ids[i] != ids[j]);
         const std::uint32_t e = nondet_u32("expires_s"); verif_assume(e >= 4990 && e <= 5010);
